@@ -119,7 +119,7 @@ func c05Run(n int, oneMetric bool, flags bool) {
 		total += row.size
 		h.Add(SamplingMultiItemPair{Item: row.item, WhaleWeight: row.whale, Size: row.size, MetricID: row.metric, BucketTs: 1000})
 	}
-	budget := v.NondetIntRange(1, 256)
+	budget := v.NondetIntRange(0, 256)
 	h.Run(budget)
 
 	for _, r := range st.rows {
